@@ -254,7 +254,12 @@ void MidiMappernRT::addFineMapper(int ID, const Port &port, std::string addr)
 
 void killMap(int ID, MidiMapperStorage &m)
 {
-    MidiMapperStorage::TinyVector<tuple<int, bool, int>> nmapping(m.mapping.size()-1);
+    //the ID may be mapped more than once (coarse and fine) or not at all
+    int remaining = 0;
+    for(int i=0; i<m.mapping.size(); i++)
+        if(get<0>(m.mapping[i]) != ID)
+            remaining++;
+    MidiMapperStorage::TinyVector<tuple<int, bool, int>> nmapping(remaining);
     int j=0;
     for(int i=0; i<m.mapping.size(); i++)
         if(get<0>(m.mapping[i]) != ID)
